@@ -206,7 +206,8 @@ def run_apalache_job(job, scratch):
     t0 = time.time()
     try:
         p = subprocess.run(["apalache-mc", "check"] + job["args"] + ["--out-dir=" + os.path.join(d, "out"), job["module"]],
-                           cwd=d, capture_output=True, text=True, timeout=job.get("timeout", 600))
+                           cwd=d, capture_output=True, text=True, timeout=job.get("timeout", 600),
+                           env=dict(os.environ, TMPDIR=d))   # its launcher makes a SANY* directory under TMPDIR and leaves it
     except subprocess.TimeoutExpired:
         raise Infra("apalache timed out")
     out = p.stdout + p.stderr
